@@ -108,3 +108,7 @@ Proof.
   rewrite zsum_upto_list. apply zsum_list_map_ext. intros [b vb]. rewrite zsum_upto_list.
   apply zsum_list_map_ext. intros [a va]. cbn [fst snd]. rewrite <- zsum_upto_scal. apply zsum_upto_ext. intros k _. ring.
 Qed.
+
+(* DiagLinearOperator._get_indices: diag[row] * (row == col) *)
+Theorem diag_get_indices_correct : forall (d : Z -> Z) r c, diag_get_indices d r c = if r =? c then d r else 0.
+Proof. intros. unfold diag_get_indices. destruct (r =? c); ring. Qed.
